@@ -8,12 +8,13 @@ exact per-point values on six samples, two of them product samples with two poin
 explores the machine (exhaustively per call family, -simulate for deeper mixed compositions), checks the model's internal
 laws as invariants and emits every behaviour together with the predicted shape, kind, per-point values or verdict.
 
-S->C binding: (1) the harness asserts that nutils evaluates the point-dependent leaves on the real samples to exactly the
-model constants; (2) every behaviour is replayed by applying the *same NumPy API call* (NEP-13/18 dispatch) to nutils
-function arrays: `.shape` / `.dtype` are compared with the model before evaluation, `sample.eval` at every point with the
-model's per-point values afterwards; REJECT must surface as an exception when the expression is built.  As a guard of
-the transcription every behaviour is also executed by real numpy on plain ndarrays: a disagreement between the TLA+
-model and numpy is a MODEL bug and aborts the check (machinery failure), it is never reported as a violation.
+S->C binding (vf/props/c07_replay.py): (1) the harness asserts that nutils evaluates the point-dependent leaves on the real
+samples to exactly the model constants; (2) every behaviour is replayed by applying the *same NumPy API call* (NEP-13/18
+dispatch) to nutils function arrays: `.shape` / `.dtype` (and numpy.shape/ndim/size) are compared with the model before
+evaluation, `sample.eval` at every point with the model's per-point values afterwards; REJECT must surface as an exception
+when the expression is built.  As a guard of the transcription every behaviour is also executed by real numpy on plain
+ndarrays: a disagreement between the TLA+ model and numpy is a MODEL bug and aborts the check (machinery failure), it is
+never reported as a violation.
 """
 
 import hashlib
@@ -21,12 +22,13 @@ import json
 import os
 import random
 import threading
-import warnings
 
 import numpy
 
-from .. import exprs, tlc
+from .. import tlc
 from . import c07_ops as ops
+from . import c07_pool, c07_replay
+from .c07_replay import SAMPLE_NAMES, canon, point_dependent
 
 LEVEL = 'model_checking'
 
@@ -47,7 +49,6 @@ CHECK_DEADLOCK FALSE
 
 # sample ids of spec/FuncBuilder.tla
 LINEB, LINEG, LINEU, RECTB, PRODYX, PRODXY = 1, 2, 3, 4, 5, 6
-SAMPLE_NAMES = {1: 'lineB', 2: 'lineG', 3: 'lineU', 4: 'rectB', 5: 'prodYX', 6: 'prodXY'}
 
 
 def S(*names):
@@ -58,38 +59,48 @@ def fam(name, ops_, leaves, samples, maxops=1, maxleaves=2, maxunused=1, wide=1)
     return dict(name=name, ops=ops_, leaves=leaves, samples='{' + ', '.join(map(str, samples)) + '}', maxops=maxops, maxleaves=maxleaves, maxunused=maxunused, wide=wide)
 
 
-def quick_families():
+def families(quick):
+    """call families explored EXHAUSTIVELY by TLC (breadth first)"""
     A, B = [LINEG, PRODXY], [PRODXY, PRODYX]
-    return [
+    one = [PRODXY]
+    d1 = [
         # ---- depth 1, wide parameter pools: every call x every parameter form x one leaf of every kind / shape class
-        fam('promotion', 'ElemOps \\cup CompareOps', S('ab2', 'ai2', 'af2', 'ac2', 'X', 'EX', 'ri', 'rf', 'rb', 'rc'), A),
-        fam('broadcast', '{"add", "multiply", "true_divide", "greater", "minimum"}', S('X', 'Y', 'BX', 'af23', 'cf13', 'cf21', 'af223', 'cf20', 'af0', 'cf3', 'af2'), B),
+        fam('promotion', 'ElemOps \\cup CompareOps', S('ab2', 'ai2', 'af2', 'ac2', 'X', 'EX', 'ri', 'rf', 'rb', 'rc'), [PRODXY] if quick else A),
+        fam('broadcast', '{"add", "multiply", "true_divide", "greater", "minimum", "hypot"}', S('X', 'Y', 'BX', 'af23', 'cf13', 'cf21', 'af223', 'cf20', 'af0', 'cf3', 'af2'), [PRODYX] if quick else B),
         fam('unary', 'UnOps', S('X', 'EX', 'Y', 'BX', 'ab2', 'ai3', 'af23', 'ac2', 'cc22', 'cb23', 'ci0', 'cf20', 'af0'), B, maxleaves=1),
-        fam('reduce', 'RedOps', S('BX', 'Y', 'af23', 'af223', 'cb23', 'ci23', 'ac2', 'X', 'cf20'), B, maxleaves=1),
+        fam('transcendental', 'TrOps', S('X', 'EX', 'Y', 'BX', 'ab2', 'ai3', 'af23', 'ac2', 'ci0', 'af0'), [PRODYX] if quick else B + [LINEU], maxleaves=1),
+        fam('reduce', 'RedOps', S('BX', 'Y', 'af23', 'af223', 'cb23', 'ci23', 'ac2', 'X', 'cf20'), [PRODYX] if quick else B, maxleaves=1),
         fam('getitem', '{"getitem"}', S('BX', 'Y', 'af23', 'af223', 'ci23', 'X', 'cf20'), B, maxleaves=1),
         fam('getitem-node', '{"getitem_node"}', S('BX', 'Y', 'af23', 'af223', 'EX', 'EY', 'ai2', 'ci0', 'ci23'), B),
-        fam('shape', 'ShapeOps', S('BX', 'Y', 'af23', 'af223', 'X', 'cf13', 'cf21', 'ab2'), B, maxleaves=1),
-        fam('join', 'JoinOps', S('X', 'Y', 'af2', 'ab2', 'af23', 'cf13', 'BX', 'cf3', 'rf', 'ac2', 'EX'), B),
-        fam('join3', 'JoinOps', S('X', 'af2', 'Y', 'ri'), [PRODXY], maxleaves=3, maxunused=2, wide=0),
-        fam('pick', '{"take", "compress"}', S('BX', 'Y', 'af23', 'af223', 'X', 'EX', 'EY', 'ai2', 'ai3', 'ci23', 'ri2', 'rin', 'ab2'), B),
-        fam('choose', '{"choose"}', S('EX', 'EY', 'ab2', 'ai2', 'X', 'af2', 'Y', 'rf', 'ac2', 'cb23', 'af23'), [PRODXY], maxleaves=3, maxunused=2),
-        fam('product', '{"dot", "matmul", "vdot", "cross"}', S('X', 'Y', 'BX', 'af2', 'af3', 'af23', 'af22', 'af223', 'cf33', 'cf21', 'ai2', 'ab2', 'ac2', 'cc22', 'rf'), B),
-        fam('einsum', '{"einsum"}', S('X', 'Y', 'BX', 'af2', 'af3', 'af23', 'af22', 'af223', 'cf33', 'ab2', 'cc22'), B),
-        fam('linalg', 'LinOps', S('af22', 'af23', 'af223', 'cf33', 'cc22', 'BX', 'Y', 'X', 'ci23', 'cb23'), B, maxleaves=1),
-        fam('lookup', 'LookupOps', S('rn3', 'rm3', 'cf3', 'X', 'Y', 'BX', 'af23', 'EX', 'ai2', 'cf13'), [PRODXY], maxleaves=3, maxunused=2),
-        # ---- depth 2, exhaustive per family, narrow pools
+        fam('shape', 'ShapeOps', S('BX', 'Y', 'af23', 'af223', 'X', 'cf13', 'cf21', 'ab2'), [PRODYX] if quick else B, maxleaves=1),
+        fam('join', 'JoinOps', S('X', 'Y', 'af2', 'ab2', 'af23', 'cf13', 'BX', 'ac2', 'EX') if quick else S('X', 'Y', 'af2', 'ab2', 'af23', 'cf13', 'BX', 'cf3', 'rf', 'ac2', 'EX'), one if quick else B),
+        fam('join3', 'JoinOps', S('X', 'af2', 'Y', 'ri'), one, maxleaves=3, maxunused=2, wide=0),
+        fam('pick', '{"take", "compress"}', S('BX', 'Y', 'af23', 'af223', 'X', 'EX', 'EY', 'ai2', 'ai3', 'ci23', 'ri2', 'rin', 'ab2'), one if quick else B),
+        fam('choose', '{"choose"}', S('EX', 'EY', 'ab2', 'ai2', 'X', 'af2', 'Y', 'rf', 'ac2', 'cb23', 'af23'), one, maxleaves=3, maxunused=2),
+        fam('product', '{"dot", "matmul", "vdot", "cross"}', S('X', 'Y', 'BX', 'af2', 'af3', 'af23', 'af22', 'af223', 'cf33', 'cf21', 'ai2', 'ab2', 'ac2', 'cc22', 'rf'), one if quick else B),
+        fam('einsum', '{"einsum"}', S('X', 'Y', 'BX', 'af2', 'af3', 'af23', 'af22', 'af223', 'cf33', 'ab2', 'cc22'), one if quick else B),
+        fam('linalg', 'LinOps', S('af22', 'af23', 'af223', 'cf33', 'cc22', 'BX', 'Y', 'X', 'ci23', 'cb23'), [PRODYX] if quick else B, maxleaves=1),
+        fam('lookup', 'LookupOps', S('rn3', 'rm3', 'cs3', 'as3', 'X', 'af23', 'EX', 'ai2') if quick else S('rn3', 'rm3', 'cf3', 'cs3', 'as3', 'X', 'Y', 'BX', 'af23', 'EX', 'ai2'), one, maxleaves=3, maxunused=2),
+    ]
+    if quick:
+        d2 = [
+            # ---- depth 2, exhaustive per family, narrow pools
+            fam('elem2', '{"add", "true_divide", "power", "greater"}', S('X', 'af2', 'ai2'), [LINEG], maxops=2, maxleaves=2, wide=0),
+            fam('index2', '{"getitem"}', S('af223', 'BX'), [PRODYX], maxops=2, maxleaves=1, wide=0),
+            fam('shape2', '{"reshape", "transpose", "swapaxes", "ravel"}', S('af23', 'Y'), [PRODXY], maxops=2, maxleaves=1, wide=0),
+            fam('reduce2', '{"sum", "all", "greater"}', S('af223', 'BX', 'af0'), [PRODXY], maxops=2, maxleaves=2, wide=0),
+            fam('mixed2', '{"getitem", "sum", "transpose", "multiply"}', S('X', 'af23', 'BX'), [PRODXY], maxops=2, maxleaves=2, wide=0),
+            fam('lin2', '{"matmul", "einsum", "inv"}', S('af22', 'Y'), [PRODYX], maxops=2, maxleaves=2, wide=0),
+        ]
+        return d1 + d2
+    everything = [LINEB, LINEG, LINEU, RECTB, PRODYX, PRODXY]
+    d2 = [
         fam('elem2', '{"add", "multiply", "true_divide", "power", "floor_divide", "greater"}', S('X', 'af2', 'ai2'), A, maxops=2, maxleaves=2, wide=0),
         fam('index2', '{"getitem", "take"}', S('af223', 'BX'), B, maxops=2, maxleaves=1, wide=0),
         fam('shape2', '{"reshape", "transpose", "swapaxes", "ravel", "broadcast_to", "repeat"}', S('af23', 'Y'), B, maxops=2, maxleaves=1, wide=0),
         fam('reduce2', '{"sum", "prod", "any", "all", "greater"}', S('af223', 'BX', 'af0'), [PRODXY], maxops=2, maxleaves=2, wide=0),
         fam('mixed2', '{"getitem", "sum", "transpose", "multiply", "stack", "matmul", "equal", "negative"}', S('X', 'af23', 'BX'), [PRODXY, LINEB], maxops=2, maxleaves=2, wide=0),
         fam('lin2', '{"matmul", "dot", "einsum", "trace", "diagonal", "inv", "det", "transpose"}', S('af22', 'Y'), [PRODYX, RECTB], maxops=2, maxleaves=2, wide=0),
-    ]
-
-
-def thorough_extra():
-    everything = [LINEB, LINEG, LINEU, RECTB, PRODYX, PRODXY]
-    return [
         fam('promotion-all', 'ElemOps \\cup CompareOps', S('ab2', 'ai2', 'af2', 'ac2', 'X', 'EX', 'ri', 'rf', 'rb', 'rc', 'ci2', 'cc0', 'cb2', 'af0'), [LINEB, LINEU, PRODYX]),
         fam('getitem-all', 'IndexOps', S('BX', 'af23', 'af223', 'X', 'EX', 'ai2'), [LINEB, LINEG, LINEU]),
         fam('getitem-rect', 'IndexOps', S('Y', 'af23', 'EY', 'ci23'), [RECTB]),
@@ -98,15 +109,26 @@ def thorough_extra():
         fam('mixed2b', '{"getitem", "sum", "prod", "transpose", "reshape", "multiply", "add", "stack", "concatenate", "matmul", "dot", "take", "absolute", "minimum"}', S('X', 'Y', 'af23', 'BX'), [PRODYX],
             maxops=2, maxleaves=2, wide=0),
     ]
+    return d1 + d2
 
 
-ALL_CALLS = ops.BINARY + ops.UNARY + ops.REDUCE + ('divmod', 'getitem', 'reshape', 'ravel', 'transpose', 'swapaxes', 'moveaxis', 'expand_dims', 'broadcast_to', 'repeat',
-                                                  'stack', 'concatenate', 'take', 'choose', 'compress', 'dot', 'matmul', 'vdot', 'cross', 'einsum', 'trace', 'diagonal',
-                                                  'det', 'inv', 'norm', 'searchsorted', 'interp')
+# model call -> action of spec/FuncBuilder.tla that makes it
+ACTION_OF = dict([(o, 'DoBinary') for o in ops.BINARY] + [(o, 'DoUnary') for o in ops.UNARY] + [(o, 'DoReduce') for o in ops.REDUCE] + [
+    ('divmod', 'DoDivmod'), ('getitem', 'DoGetItem'), ('reshape', 'DoReshape'), ('ravel', 'DoRavel'), ('transpose', 'DoTranspose'), ('swapaxes', 'DoSwapaxes'),
+    ('moveaxis', 'DoMoveaxis'), ('expand_dims', 'DoExpandDims'), ('broadcast_to', 'DoBroadcastTo'), ('repeat', 'DoRepeat'), ('stack', 'DoJoin'), ('concatenate', 'DoJoin'),
+    ('take', 'DoTake'), ('choose', 'DoChoose'), ('compress', 'DoCompress'), ('dot', 'DoProduct'), ('matmul', 'DoProduct'), ('vdot', 'DoProduct'), ('cross', 'DoProduct'),
+    ('einsum', 'DoEinsum'), ('trace', 'DoDiag'), ('diagonal', 'DoDiag'), ('det', 'DoLinalg'), ('inv', 'DoLinalg'), ('norm', 'DoLinalg'), ('searchsorted', 'DoSearch'),
+    ('interp', 'DoSearch'), ('leaf', 'AddLeaf')])
+ALL_ACTIONS = sorted(set(ACTION_OF.values()) | {'DoGetItemNode'})
+ALL_CALLS = tuple(ACTION_OF) [:-1]
 REJECTING_CALLS = ('add', 'greater', 'sum', 'getitem', 'reshape', 'transpose', 'swapaxes', 'broadcast_to', 'stack', 'concatenate', 'take', 'dot', 'matmul', 'vdot', 'cross',
                    'einsum', 'diagonal', 'det', 'inv', 'searchsorted', 'interp')
 
-SIM_FAMILY = fam('sim', 'AllOps', 'AllLeaves', [LINEB, LINEG, LINEU, RECTB, PRODYX, PRODXY], maxops=4, maxleaves=4, maxunused=2, wide=0)
+# vocabulary of the simulated (deep, mixed) compositions: the calls nutils dispatches (the others are exercised -- and counted as
+# "not implemented" -- by the depth-1 families only, where they cannot shadow the composition around them)
+SIM_OPS = ('(AllOps \\ {"moveaxis", "max", "min", "less_equal", "greater_equal", "not_equal", "logical_xor", "expand_dims"})')
+SIM_LEAVES = 'AllLeaves \\ {"cf20"}'
+SIM_FAMILY = fam('sim', SIM_OPS, SIM_LEAVES, [LINEB, LINEG, LINEU, RECTB, PRODYX, PRODXY], maxops=4, maxleaves=4, maxunused=2, wide=0)
 
 
 def module_text(fams):
@@ -125,371 +147,21 @@ def run_builder(tag, fams, *, simulate=None, depth=None, seed=0, mutant=False, e
                    tag=tag, workers=1 if simulate else workers, deadlock=False, timeout=timeout, extra_modules=[p], coverage=coverage, heap='6g', **kw)
 
 
-# ---------------------------------------------------------------------------
-# the real samples and leaves (binding of the sample model)
-
-_WORLD = None
-
-
-class World:
-    def __init__(self, tables):
-        from nutils import mesh, function
-        self.function = function
-        dX, x = mesh.line(2, space='X')
-        dY, y = mesh.rectilinear([2, 1], space='Y')
-        self.pt = dict(X=x, EX=dX.f_index, BX=dX.basis('std', degree=1), Y=y, EY=dY.f_index)
-        self.samples = {
-            'lineB': dX.sample('bezier', 2), 'lineG': dX.sample('gauss', 1), 'lineU': dX.sample('uniform', 2),
-            'rectB': dY.sample('bezier', 2),
-            'prodYX': dY.sample('gauss', 1) * dX.sample('bezier', 2),
-            'prodXY': dX.sample('gauss', 1) * dY.sample('gauss', 1)}
-        self.tables = tables                      # sample id -> table emitted by the spec
-        g = tables[min(tables)]['globals']
-        self.globals = {l['name']: l for l in g}
-        self.gval = {}
-        self.leafobj = {}
-        self.args = {}
-        for l in g:
-            val, bad = ops.decode(l['sh'], l['dt'], l['v'])
-            assert not bad.any()
-            self.gval[l['name']] = val
-            if l['src'] == 'arg':
-                self.leafobj[l['name']] = function.Argument(l['name'], tuple(l['sh']), ops.KINDS[l['dt']])
-                self.args[l['name']] = val
-            elif l['src'] == 'const':
-                self.leafobj[l['name']] = function.Array.cast(val)
-            else:
-                self.leafobj[l['name']] = ops.raw_value(l)
-        self.ptval = {}                           # (sample id, leaf name) -> ndarray (npoints, *shape)
-        for sid, t in tables.items():
-            for l in t['leaves']:
-                vals = [ops.decode(l['sh'], l['dt'], pv)[0] for pv in l['pv']]
-                self.ptval[sid, l['name']] = numpy.array(vals)
-
-    def nutils_leaf(self, name):
-        return self.pt[name] if name in self.pt else self.leafobj[name]
-
-    def numpy_leaf(self, sid, name, pt):
-        if name in self.pt:
-            return numpy.array(self.ptval[sid, name][pt])
-        l = self.globals[name]
-        return ops.raw_value(l) if l['src'] == 'raw' else self.gval[name]
-
-
-def bind_samples(world, rep):
-    """the sample model is itself bound: nutils must evaluate every point-dependent leaf on every real sample to exactly the
-    model constants (count, order and value of the points); anything else is a machinery failure, not a finding"""
-    n = 0
-    for sid, t in sorted(world.tables.items()):
-        smp = world.samples[t['name']]
-        if smp.npoints != t['np']:
-            raise RuntimeError('sample {} has {} points, the model says {}'.format(t['name'], smp.npoints, t['np']))
-        for l in t['leaves']:
-            f = world.pt[l['name']]
-            if tuple(f.shape) != tuple(l['sh']) or ops.kind_of(f.dtype) != l['dt']:
-                raise RuntimeError('leaf {} has shape/dtype {} {}, the model says {} {}'.format(l['name'], f.shape, f.dtype, l['sh'], l['dt']))
-            got = smp.eval(f)
-            want = world.ptval[sid, l['name']]
-            if got.shape != want.shape or not (got == want).all():
-                raise RuntimeError('sample model not bound: leaf {} on sample {} evaluates to {} but the model constants are {}'.format(l['name'], t['name'], got.tolist(), want.tolist()))
-            n += 1
-    # arguments and constants evaluate to the model values, too
-    for name, obj in world.leafobj.items():
-        if hasattr(obj, 'lower'):
-            got = world.samples['lineG'].eval(obj, arguments=world.args)
-            if not (got == world.gval[name][None]).all():
-                raise RuntimeError('global leaf {} not bound'.format(name))
-    rep.extra['sample_leaves_bound'] = n
-    return n
-
-
-# ---------------------------------------------------------------------------
-# replay of one behaviour
-
-def unsupported(ex):
-    """exceptions by which nutils declares that it does not implement a call (never a violation)"""
-    s = str(ex)
-    if isinstance(ex, NotImplementedError):
-        return 'NotImplementedError'
-    if isinstance(ex, TypeError) and ('no implementation found' in s or 'NotImplemented' in s or 'unexpected keyword argument' in s):
-        return 'no dispatch for this call / keyword'
-    if isinstance(ex, ValueError) and ('no total order' in s or 'not defined for complex' in s):
-        return 'declared unsupported for complex'
-    if isinstance(ex, (ValueError, TypeError)) and ('is not supported' in s or 'Use logical operators to compare booleans' in s):
-        return 'declared unsupported: ' + s[:60]
-    return None
-
-
-def numpy_reference(world, e):
-    """run the program with real numpy on plain ndarrays, per point. returns list over points of (values list, failing node or None, exception)"""
-    out = []
-    nodes = e['nodes']
-    for pt in range(world.tables[e['smp']]['np']):
-        vals = []
-        fail = None
-        for k, n in enumerate(nodes, 1):
-            if n['op'] == 'leaf':
-                vals.append(world.numpy_leaf(e['smp'], n['p'], pt))
-                continue
-            try:
-                with numpy.errstate(all='ignore'), warnings.catch_warnings():
-                    warnings.simplefilter('ignore')
-                    vals.append(ops.apply(n['op'], n['p'], [vals[d - 1] for d in ops.seq(n['d'])]))
-            except Exception as ex:
-                fail = (k, ex)
-                break
-        out.append((vals, fail))
-    return out
-
-
-def same_values(want, bad, got, dt):
-    got = numpy.asarray(got)
-    if got.shape != want.shape:
-        return False
-    ok = ~bad
-    if dt in ('b', 'i'):
-        return bool((got[ok].astype(numpy.int64) == want[ok].astype(numpy.int64)).all())
-    with numpy.errstate(all='ignore'):
-        return bool(numpy.allclose(got[ok], want[ok], rtol=1e-9, atol=1e-12))
-
-
-def model_vs_numpy(world, e, ref):
-    """sanity guard of the transcription. returns None if model and numpy agree, 'undefined' if the comparison is void
-    (model value undefined), else a description of the disagreement (= a MODEL bug)"""
-    nodes = e['nodes']
-    root = nodes[-1]
-    anybad = any(n['bad'] for n in nodes)
-    for pt, (vals, fail) in enumerate(ref):
-        if root['dt'] in ('REJECT', 'TYPEERR'):
-            if fail is None:
-                return 'model says {} ({}) but numpy returns a value at point {}'.format(root['dt'], e['why'], pt)
-            if fail[0] != len(nodes):
-                return 'numpy raises at node {} but the model only at the root'.format(fail[0])
-            continue
-        if fail is not None:
-            if anybad:
-                return 'undefined'
-            return 'model says value but numpy raises {!r} at node {}'.format(fail[1], fail[0])
-        for k, (n, v) in enumerate(zip(nodes, vals), 1):
-            if n['op'] == 'leaf':
-                continue
-            v = numpy.asarray(v)
-            if list(v.shape) != list(ops.seq(n['sh'])):
-                return 'node {} shape: model {} numpy {}'.format(k, n['sh'], v.shape)
-            if ops.kind_of(v.dtype) != n['dt']:
-                return 'node {} kind: model {} numpy {}'.format(k, n['dt'], v.dtype)
-        want, bad = ops.decode(root['sh'], root['dt'], e['root'][pt])
-        if not same_values(want, bad, vals[-1], root['dt']):
-            return 'root value at point {}: model {} numpy {}'.format(pt, want.tolist(), numpy.asarray(vals[-1]).tolist())
-    return None
-
-
-def unstable(nodes):
-    """a discontinuous call consumes a float value that is not exactly representable / exactly rounded: the evaluation may
-    legitimately land on the other side of the discontinuity, which the property allows (rounding)"""
-    inexact = []
-    for n in nodes:
-        d = ops.seq(n['d'])
-        ix = n['dt'] in ('f', 'c') and (not n['dy'] or n['op'] in ops.INEXACT or any(inexact[j - 1] for j in d))
-        sel = ops.DISCONT_OPERANDS.get(n['op'])
-        if n['op'] in ops.DISCONT and any(inexact[j - 1] for i, j in enumerate(d) if sel is None or i in sel):
-            return True
-        inexact.append(ix or (n['dt'] in ('b', 'i') and any(inexact[j - 1] for j in d)))
-    return False
-
-
-def key_for(nodes, k, what):
-    op, desc = ops.descriptor(nodes, k)
-    n = nodes[k - 1]
-    if what.startswith(('eval-', 'value', 'evaluated')) and (0 in ops.seq(n['sh']) or any(0 in ops.seq(nodes[d - 1]['sh']) for d in ops.seq(n['d']))):
-        return 'zero-size-array:' + what           # one root cause irrespective of the call
-    return '{}:{}:{}'.format(op, desc, what)
-
-
-def replay(item):
-    e, world = item, _WORLD
-    function = world.function
-    nodes = e['nodes']
-    root = nodes[-1]
-    smp = world.samples[SAMPLE_NAMES[e['smp']]]
-    out = dict(status='ok', expr=ops.pyexpr(nodes), smp=SAMPLE_NAMES[e['smp']])
-    # ---- numpy on plain ndarrays: guard of the model
-    ref = numpy_reference(world, e)
-    dis = model_vs_numpy(world, e, ref)
-    if dis == 'undefined':
-        out.update(status='skip', why='model value undefined (numpy raises on these data)')
-        return out
-    if dis is not None:
-        out.update(status='modelbug', what=dis)
-        return out
-    # ---- build the function array with the same calls
-    objs = []
-    for k, n in enumerate(nodes, 1):
-        if n['op'] == 'leaf':
-            objs.append(world.nutils_leaf(n['p']))
-            continue
-        isroot = k == len(nodes)
-        try:
-            with warnings.catch_warnings():
-                warnings.simplefilter('ignore')
-                obj = exprs.with_timeout(30, ops.apply, n['op'], n['p'], [objs[d - 1] for d in ops.seq(n['d'])], function.expand_dims)
-        except exprs.Timeout:
-            out.update(status='violation', key=key_for(nodes, k, 'build-timeout'), what='building {} did not return in 30 s'.format(ops.pyexpr(nodes, k)))
-            return out
-        except Exception as ex:
-            if isroot and root['dt'] == 'REJECT':
-                out.update(status='ok', rejected=True)
-                return out
-            if isroot and root['dt'] == 'TYPEERR':
-                out.update(status='skip', why='numpy has no loop for these kinds (nothing demanded)')
-                return out
-            why = unsupported(ex)
-            if why:
-                out.update(status='skip', why='not implemented by nutils: {} [{}]'.format(n['op'], why))
-                return out
-            out.update(status='violation', key=key_for(nodes, k, 'build-exception:' + type(ex).__name__),
-                       what='{} raises {}: {} although numpy returns an array of shape {} kind {}'.format(ops.pyexpr(nodes, k), type(ex).__name__, str(ex)[:120], n['sh'], n['dt']))
-            return out
-        if isroot and root['dt'] == 'TYPEERR':
-            out.update(status='skip', why='numpy has no loop for these kinds (nothing demanded)')
-            return out
-        if isroot and root['dt'] == 'REJECT':
-            got = 'shape {}'.format(getattr(obj, 'shape', '?'))
-            op, desc = ops.descriptor(nodes, k)
-            out.update(status='violation', key='{}:not-rejected:{}'.format(op, e['why']),
-                       what='{} is accepted ({}) although numpy rejects the operands ({})'.format(ops.pyexpr(nodes, k), got, e['why']))
-            return out
-        if not isinstance(obj, function.Array):
-            raise RuntimeError('replay of {} did not produce a function array but {!r}'.format(ops.pyexpr(nodes, k), type(obj)))
-        if list(obj.shape) != list(ops.seq(n['sh'])):
-            out.update(status='violation', key=key_for(nodes, k, 'shape'), what='{} has shape {} but numpy gives {}'.format(ops.pyexpr(nodes, k), obj.shape, tuple(ops.seq(n['sh']))))
-            return out
-        if ops.kind_of(obj.dtype) != n['dt']:
-            out.update(status='violation', key=key_for(nodes, k, 'dtype'), what='{} has dtype {} but numpy gives kind {}'.format(ops.pyexpr(nodes, k), obj.dtype.__name__, n['dt']))
-            return out
-        objs.append(obj)
-    # ---- evaluate at every point
-    args = {n['p']: world.args[n['p']] for n in nodes if n['op'] == 'leaf' and n['p'] in world.args}
-    anybad = any(n['bad'] for n in nodes)
-
-    def evaluate(obj):
-        with numpy.errstate(all='ignore'), warnings.catch_warnings():
-            warnings.simplefilter('ignore')
-            return exprs.with_timeout(60, smp.eval, obj, arguments=args)
-
-    def first_deviation():
-        'first call (post order) whose evaluation deviates from numpy on plain ndarrays: root-cause attribution only'
-        for k, n in enumerate(nodes, 1):
-            if n['op'] == 'leaf' or not hasattr(objs[k - 1], 'lower'):
-                continue
-            try:
-                got = evaluate(objs[k - 1])
-            except Exception as ex:
-                return k, 'eval-exception:' + type(ex).__name__, ex
-            want = numpy.array([numpy.asarray(vals[k - 1]) for vals, fail in ref])
-            if got.shape != want.shape or not same_values(want, numpy.zeros(want.shape, bool) | ~numpy.isfinite(want.astype(complex)), got, n['dt']):
-                return k, 'value', None
-        return len(nodes), 'value', None
-
-    try:
-        got = evaluate(objs[-1])
-    except exprs.Timeout:
-        out.update(status='violation', key=key_for(nodes, len(nodes), 'eval-timeout'), what='evaluation of {} did not return in 60 s'.format(out['expr']))
-        return out
-    except Exception as ex:
-        if anybad:
-            out.update(status='skip', why='model value undefined at some point (evaluation raises)')
-            return out
-        k, what, ex2 = first_deviation()
-        ex2 = ex2 or ex
-        if unsupported(ex2):
-            out.update(status='skip', why='not implemented by nutils (raised at evaluation): {} [{}]'.format(nodes[k - 1]['op'], unsupported(ex2)))
-            return out
-        out.update(status='violation', key=key_for(nodes, k, 'eval-exception:' + type(ex2).__name__),
-                   what='sample.eval of {} on {} raises {}: {}'.format(out['expr'], out['smp'], type(ex2).__name__, str(ex2)[:120]))
-        return out
-    want = []
-    bad = []
-    for pv in e['root']:
-        w, b = ops.decode(root['sh'], root['dt'], pv)
-        want.append(w)
-        bad.append(b)
-    want = numpy.array(want).reshape((len(want),) + tuple(ops.seq(root['sh'])))
-    bad = numpy.array(bad).reshape(want.shape)
-    if got.shape != want.shape:
-        out.update(status='violation', key=key_for(nodes, len(nodes), 'evaluated-shape'), what='sample.eval of {} has shape {} instead of {}'.format(out['expr'], got.shape, want.shape))
-        return out
-    if ops.kind_of(got.dtype) != root['dt']:
-        out.update(status='violation', key=key_for(nodes, len(nodes), 'evaluated-dtype'), what='sample.eval of {} has dtype {} instead of kind {}'.format(out['expr'], got.dtype, root['dt']))
-        return out
-    if bad.all() and bad.size:
-        out.update(status='skip', why='model value undefined at every point')
-        return out
-    if unstable(nodes):
-        out.update(status='skip', why='discontinuous call on inexact float data (rounding may legitimately differ)')
-        return out
-    if not same_values(want, bad, got, root['dt']):
-        k, what, ex2 = first_deviation()
-        if what != 'value':
-            what = 'value'
-        pts = [i for i in range(len(want)) if not same_values(want[i], bad[i], got[i], root['dt'])]
-        out.update(status='violation', key=key_for(nodes, k, 'value'),
-                   what='{} on sample {}: value at point {} is {} but numpy gives {}'.format(out['expr'], out['smp'], pts[0], got[pts[0]].tolist(), want[pts[0]].tolist()))
-        return out
-    out['points'] = int(len(want))
-    out['entries'] = int((~bad).sum())
-    # ---- second spelling of the same call (operators, Array methods) must give the same function
-    n = root
-    try:
-        with warnings.catch_warnings():
-            warnings.simplefilter('ignore')
-            alt = ops.apply_alt(n['op'], n['p'], [objs[d - 1] for d in ops.seq(n['d'])])
-    except Exception as ex:
-        alt = None
-        if not unsupported(ex):
-            out.update(status='violation', key=key_for(nodes, len(nodes), 'alt-spelling:build-exception:' + type(ex).__name__),
-                       what='operator/method spelling of {} raises {}: {}'.format(out['expr'], type(ex).__name__, str(ex)[:120]))
-            return out
-    if alt is not None and isinstance(alt, function.Array):
-        if tuple(alt.shape) != tuple(objs[-1].shape) or alt.dtype != objs[-1].dtype:
-            out.update(status='violation', key=key_for(nodes, len(nodes), 'alt-spelling:shape-dtype'), what='operator/method spelling of {} has shape {} dtype {}'.format(out['expr'], alt.shape, alt.dtype))
-            return out
-        try:
-            got2 = evaluate(alt)
-        except Exception as ex:
-            out.update(status='violation', key=key_for(nodes, len(nodes), 'alt-spelling:eval-exception:' + type(ex).__name__), what='operator/method spelling of {} fails to evaluate: {!r}'.format(out['expr'], ex))
-            return out
-        if not same_values(want, bad, got2, root['dt']):
-            out.update(status='violation', key=key_for(nodes, len(nodes), 'alt-spelling:value'), what='operator/method spelling of {} evaluates differently'.format(out['expr']))
-            return out
-        out['alt'] = True
-    return out
-
-
-# ---------------------------------------------------------------------------
-
-def canon(e):
-    return json.dumps([[n['op'], n['d'], n['p']] for n in e['nodes']], sort_keys=True, separators=(',', ':'))
-
-
-def point_dependent(e):
-    return any(n['op'] == 'leaf' and n['p'] in ('X', 'EX', 'BX', 'Y', 'EY') for n in e['nodes'])
-
-
-def collect(res, tables, progs):
+def collect(res, tables, progs, origin):
     for e in res.emitted:
         if e['kind'] == 'table':
             tables[e['smp']] = e
         else:
             e['nodes'] = ops.seq(e['nodes'])
             e['root'] = ops.seq(e['root'])
+            e['origin'] = origin
             progs.setdefault((e['smp'], canon(e)), e)
 
 
 def spec_mutant(rep):
     """non-vacuity of the model's own laws: the promotion mutant (true_divide keeps the operand kind) must violate KindLaw"""
     fams = [fam('mutant', '{"true_divide", "add"}', S('ai2', 'EX', 'af2'), [LINEG])]
-    res = run_builder('c07-mutant', fams, mutant=True)
+    res = run_builder('c07-mutant', fams, mutant=True, workers=2)
     rep.add_tlc(res)
     if res.violated != 'KindLaw':
         raise RuntimeError('spec mutant (WrongPromotion) is not caught by the KindLaw invariant: TLC reports {}'.format(res.violated))
@@ -497,26 +169,26 @@ def spec_mutant(rep):
 
 
 def run(rep):
-    global _WORLD
     rng = random.Random(rep.seed)
     quick = rep.tier == 'quick'
     tables, progs = {}, {}
-    fams = quick_families() + ([] if quick else thorough_extra())
+    fams = families(quick)
     only = os.environ.get('VF_C07_FAMILIES')       # development aid: restrict to some families
     if only:
         fams = [f for f in fams if f['name'] in only.split(',')]
     results = {}
+    ncpu = os.cpu_count() or 4
 
     def bfs():
-        results['bfs'] = run_builder('c07-bfs', fams, timeout=1500)
+        results['bfs'] = run_builder('c07-bfs', fams, timeout=1500, workers=max(2, ncpu - (2 if quick else 6)))
 
     def mutant():
         spec_mutant(rep)
 
-    nsim = 3 if quick else 12
+    nsim = 2 if quick else 6
 
     def sim(i):
-        results['sim', i] = run_builder('c07-sim{}'.format(i), [SIM_FAMILY], simulate=60 if quick else 1500, depth=10, seed=rep.seed * 100 + 7 + i, emitmin=2, timeout=60 if quick else 500)
+        results['sim', i] = run_builder('c07-sim{}'.format(i), [SIM_FAMILY], simulate=14 if quick else 150, depth=10, seed=rep.seed * 100 + 7 + i, emitmin=2, timeout=90 if quick else 600)
 
     errors = []
 
@@ -538,30 +210,38 @@ def run(rep):
     if res.violated:
         raise tlc.TLCError('FuncBuilder/NumpySem internal law {} violated:\n{}'.format(res.violated, '\n'.join(res.error_trace[:60])))
     rep.add_tlc(res, exhaustive=True)
-    collect(res, tables, progs)
+    collect(res, tables, progs, 'bfs')
     nbfs = len(progs)
     for i in range(nsim):
         r = results['sim', i]
         if r.violated:
             raise tlc.TLCError('FuncBuilder/NumpySem internal law {} violated in simulation:\n{}'.format(r.violated, '\n'.join(r.error_trace[:60])))
         rep.add_tlc(r, exhaustive=False)
-        collect(r, tables, progs)
+        collect(r, tables, progs, 'sim')
     rep.lap('TLC: {} exhaustive + {} simulated behaviours'.format(nbfs, len(progs) - nbfs))
-    # vacuity guard (TLC's -coverage is pathologically slow on this recursion-heavy spec, so the guard is computed from the
-    # emitted behaviours): every call of the vocabulary produced a value at least once, every shape-checking call a REJECT
+    # ---- vacuity guard (TLC's -coverage is pathologically slow on this recursion-heavy spec, so the guard is computed from the
+    # behaviours TLC emitted): every action of FuncBuilder was taken, every call of the vocabulary produced a value at least once,
+    # every shape-checking call a REJECT
     seen = {}
+    actions = dict.fromkeys(ALL_ACTIONS, 0)
     for e in progs.values():
         r = e['nodes'][-1]
         seen.setdefault(r['op'], set()).add('value' if r['dt'] in 'bifc' else r['dt'])
-    rep.actions.update({op: sum(1 for e in progs.values() if e['nodes'][-1]['op'] == op) for op in seen})
+        for n in e['nodes']:
+            a = ACTION_OF[n['op']]
+            if n['op'] == 'getitem' and any(it['k'] == 'node' for it in ops.seq(n['p'])):
+                a = 'DoGetItemNode'
+            actions[a] += 1
+    rep.actions.update(actions)
     if not only:
-        missing = [op for op in ALL_CALLS if 'value' not in seen.get(op, ())] + [op + ':REJECT' for op in REJECTING_CALLS if 'REJECT' not in seen.get(op, ())]
+        missing = [a for a, c in actions.items() if not c] + [op for op in ALL_CALLS if 'value' not in seen.get(op, ())] + [op + ':REJECT' for op in REJECTING_CALLS if 'REJECT' not in seen.get(op, ())]
         if missing:
-            raise RuntimeError('vacuous: calls never generated by the FuncBuilder machine: {}'.format(missing))
+            raise RuntimeError('vacuous: actions / calls never generated by the FuncBuilder machine: {}'.format(missing))
     if sorted(tables) != [1, 2, 3, 4, 5, 6]:
         raise RuntimeError('sample tables missing: {}'.format(sorted(tables)))
-    _WORLD = World(tables)
-    bind_samples(_WORLD, rep)
+    world = c07_replay.World(tables)
+    c07_replay.set_world(world)
+    c07_replay.bind_samples(world, rep)
     # ---- selection: a program without point-dependent leaves has the same model value on every sample; in the quick tier it is
     # replayed on one of its samples (chosen by hash), point-dependent programs on all of theirs
     items = []
@@ -576,10 +256,19 @@ def run(rep):
         else:
             items.extend(es)
     rng.shuffle(items)
-    outs = exprs.pmap(replay, items, chunksize=16)
+    cap = 25000 if quick else 240000      # bound on the replay work (nutils compiles every expression it evaluates: ~20 ms CPU each)
+    if len(items) > cap:
+        keep = [e for e in items if e['origin'] == 'bfs']
+        sims = [e for e in items if e['origin'] != 'bfs']
+        items = (keep + sims[:max(0, cap - len(keep))])
+        rng.shuffle(items)
+        rep.extra['replay_cap'] = 'replayed {} of the generated behaviours (all exhaustive ones first)'.format(len(items))
+    del progs, bykey
+    outs = c07_pool.pmap(c07_replay.replay, items)
     rep.lap('replayed {} behaviours'.format(len(items)))
     bugs = []
     nsamples = set()
+    judged_calls = {}
     for e, o in zip(items, outs):
         if 'harness_error' in o:
             raise RuntimeError(o['harness_error'])
@@ -598,24 +287,37 @@ def run(rep):
             continue
         rep.traces += 1
         nsamples.add(e['smp'])
-        if len(rep.samples) < 4 and nops >= 2 and point_dependent(e):
+        if o.get('valued') is False:
+            rep.skip('values not judged: ' + o['why'])
+        op = e['nodes'][-1]['op']
+        judged_calls[op] = judged_calls.get(op, 0) + 1
+        if len(rep.samples) < 4 and nops >= 2 and point_dependent(e) and o.get('entries'):
             rep.sample(dict(expr=o['expr'], sample=o['smp'], shape=e['nodes'][-1]['sh'], kind=e['nodes'][-1]['dt'], verdict='REJECT' if o.get('rejected') else 'value'))
     if bugs:
         raise RuntimeError('TLA+ model disagrees with real numpy on {} behaviours (MODEL bug, fix spec/NumpySem.tla), e.g.:\n{}'.format(
             len(bugs), '\n'.join('  {}: {}'.format(*b) for b in bugs[:25])))
     rep.extra['behaviours_exhaustive'] = nbfs
-    rep.extra['behaviours_simulated'] = len(progs) - nbfs
+    rep.extra['behaviours_simulated'] = sum(1 for e in items if e['origin'] == 'sim')
     rep.extra['replayed'] = len(items)
+    rep.extra['replayed_point_dependent'] = sum(1 for e in items if point_dependent(e))
+    rep.extra['replayed_on_product_samples'] = sum(1 for e in items if e['smp'] in (PRODYX, PRODXY))
     rep.extra['rejected_as_predicted'] = sum(1 for o in outs if o.get('rejected'))
     rep.extra['entries_compared'] = sum(o.get('entries', 0) for o in outs)
+    rep.extra['entries_compared_with_numpy_where_model_undefined'] = sum(o.get('entries_fallback', 0) for o in outs)
     rep.extra['alt_spellings_checked'] = sum(1 for o in outs if o.get('alt'))
     rep.extra['samples_used'] = sorted(SAMPLE_NAMES[s] for s in nsamples)
+    rep.extra['calls_judged'] = dict(sorted(judged_calls.items()))
+    rep.extra['calls_never_judged'] = sorted(set(ALL_CALLS) - set(judged_calls))
     rep.constants['families'] = [f['name'] for f in fams] + ['sim']
     rep.rule = ('cases = (behaviour of the FuncBuilder TLA+ machine, sample); non-trivial = the model defines a verdict that is demanded of the code '
                 '(value or REJECT) and the call is implemented by nutils')
     rep.assumptions += ['reference = spec/NumpySem.tla, cross-checked against the installed numpy {} on plain ndarrays for every behaviour'.format(numpy.__version__),
                         'only the element kind (bool/int/real/complex) is compared, never the bit width',
-                        'model values undefined (division by zero, irrational roots, out-of-range run-time indices, |n| > 20000) are never judged',
-                        'discontinuous calls on inexact float data are not judged (rounding)',
-                        'calls nutils does not dispatch (TypeError from NEP-13/18, NotImplementedError, declared complex restrictions) are skipped and counted',
-                        'transcendental ufuncs and eig are outside the exact model']
+                        'points at which plain numpy produces inf/nan anywhere in the program (division by zero ...) are never judged',
+                        'entries the rational model leaves undefined (irrational roots, transcendental functions, |n| > 20000) are compared with the installed '
+                        'numpy applied to the operand values of that point (rtol 1e-9) instead of with the model; shape, kind and REJECT always come from the model',
+                        'discontinuous calls on inexact float data: only shape and kind are judged (rounding)',
+                        'refusals nutils declares (TypeError from NEP-13/18 dispatch, NotImplementedError, documented restrictions: complex order, compress condition length, '
+                        'diagonal of non-square axes, decreasing basis indices, repeat of non-singleton axes) are skipped and counted, never judged',
+                        'legacy NumPy forms for 0-d operands (axis=0 of a 0-d array) and cross of 2-vectors (removed in NumPy 2) are not demanded',
+                        'eig / eigh are outside the model']
